@@ -365,6 +365,15 @@ def invalidate_order(ctx):
     ctx.check(g.every_path_to(g.nodes_of_all(wr), g.nodes_of_all(cp)) and not g.path_exists(g.nodes_of_all(wr), g.nodes_of_all(cp)), wr[0],
               "the entries are wiped before the new source is stored",
               "the new source is stored before the old entries are wiped: a kill in between leaves results of the old code that now look valid")
+    # ... and nothing publishes the new source ahead of that wipe on the way there
+    chk = M(ctx, "MemorizedFunc._check_previous_func_code")
+    gk = cfg_of(chk)
+    wipes = [c for c in calls_in(chk) if call_name(c) in ("self.clear", "self.store_backend.clear_path")]
+    early = [c for c in calls_in(chk) if call_name(c) in ("self._write_func_code", "self.store_backend.store_cached_func_code")]
+    for w_ in early:
+        ctx.check(not any(gk.path_exists(gk.nodes_of(w_), gk.nodes_of(x)) for x in wipes), w_, "storing the source in _check_previous_func_code never precedes a wipe of the old entries",
+                  "the new source is stored before the old entries are wiped (`%s` can be followed by `%s`): a kill in between leaves results of the old code that now look valid"
+                  % (unparse(w_, 60), unparse(wipes[0], 40) if wipes else "?"))
     clr = S(ctx, "FileSystemStoreBackend.clear_location")
     gl = cfg_of(clr)
     rm = [c for c in calls_in(clr) if call_name(c) == "shutil.rmtree"]
@@ -1282,3 +1291,60 @@ def dump_always_writes(ctx):
     d = [c for c in calls_in(ac) if call_name(c) == "self.store_backend.dump_item"]
     ga = cfg_of(ac)
     ctx.check(bool(d) and ga.every_path_from([ga.entry], ga.nodes_of_all(d)), d[0] if d else ac, "every recomputation stores its result")
+
+
+def expires(ctx):
+    """expires_after(...): the entry is valid iff its age is below the WHOLE duration given by the caller."""
+    f = M(ctx, "expires_after")
+    cb = M(ctx, "expires_after.cache_validation_callback")
+    params = [a.arg for a in f.args.args + f.args.kwonlyargs]
+    td = [c for c in calls_in(f) if (call_name(c) or "").endswith("timedelta")]
+    ctx.need(td, "expires_after no longer builds a timedelta")
+    kws = {k.arg: dotted(k.value) for k in td[0].keywords if k.arg}
+    okd = not td[0].args and set(kws) == set(params) and all(kws[k] == k for k in kws) and set(params) == {"days", "seconds", "microseconds", "milliseconds", "minutes", "hours", "weeks"}
+    ctx.check(okd, td[0], "the duration is timedelta(<every parameter under its own name>)", "the duration is built as %s: a part of what the caller asked for is dropped or misplaced" % unparse(td[0], 120))
+    dn = enclosing_stmt(td[0])
+    dname = dn.targets[0].id if isinstance(dn, ast.Assign) and isinstance(dn.targets[0], ast.Name) else None
+    cmps = [c for r in nodes_of_type(cb, ast.Return) if r.value is not None for c in ast.walk(r.value) if isinstance(c, ast.Compare)]
+    ctx.need(cmps, "the validation callback of expires_after no longer compares an age with the duration")
+    def resolve(e, depth=0):
+        if isinstance(e, ast.Name) and depth < 4:
+            for scope in (cb, f):
+                ds = [a for a in nodes_of_type(scope, ast.Assign) if e.id in stores_to(a)]
+                if len(ds) == 1:
+                    return resolve(ds[0].value, depth + 1)
+        return e
+    for c in cmps:
+        sides = [resolve(c.left), resolve(c.comparators[0])]
+        total = [x for x in sides if isinstance(x, ast.Call) and dname and unparse(x) == "%s.total_seconds()" % dname]
+        age = [x for x in sides if isinstance(x, ast.BinOp) and isinstance(x.op, ast.Sub) and unparse(x.left) == "time.time()" and unparse(x.right) == "%s['time']" % cb.args.args[0].arg]
+        ctx.check(len(total) == 1 and len(age) == 1 and len(c.ops) == 1, c, "valid iff time.time() - metadata['time'] < duration.total_seconds()",
+                  "the age test is `%s` (resolved: %s vs %s): it no longer compares the entry's age with the whole duration in seconds" % (unparse(c, 80), unparse(sides[0], 60), unparse(sides[1], 60)))
+        if len(total) == 1 and len(age) == 1 and len(c.ops) == 1:
+            # after the loader's normalisation comparisons are written with < / <=: age on the small side
+            small_is_age = sides[0] is age[0]
+            ctx.check(small_is_age and isinstance(c.ops[0], (ast.Lt, ast.LtE)), c, "younger than the duration => valid", "the comparison is the wrong way round: old entries are valid and fresh ones expire")
+
+
+def meta_dual(ctx):
+    """metadata.json: what store_metadata writes, get_metadata can read back (codec agreement)."""
+    w = S(ctx, "StoreBackendMixin.store_metadata")
+    r = S(ctx, "StoreBackendMixin.get_metadata")
+    enc = [c for c in ast.walk(w) if isinstance(c, ast.Call) and call_attr(c) == "encode"]
+    dec = [c for c in ast.walk(r) if isinstance(c, ast.Call) and call_attr(c) == "decode"]
+    dumps = [c for c in ast.walk(w) if isinstance(c, ast.Call) and call_name(c) in ("json.dumps", "json.dump")]
+    loads = [c for c in ast.walk(r) if isinstance(c, ast.Call) and call_name(c) in ("json.loads", "json.load")]
+    ctx.check(bool(dumps) and bool(loads), w, "metadata is written and read as JSON", "metadata is no longer written and read with the same serialiser (json)")
+    def codec(c):
+        a = c.args[0] if c.args else kwarg(c, "encoding")
+        return (const_value(a) or "utf-8").lower().replace("_", "-") if a is None or isinstance(a, ast.Constant) else None
+    if enc and dec:
+        ce, cd = codec(enc[0]), codec(dec[0])
+        ascii_only = not any(k.arg == "ensure_ascii" and not is_const(k.value, True) for c in dumps for k in c.keywords)
+        superset = {"ascii": {"ascii", "utf-8", "utf8", "latin-1", "latin1", "iso-8859-1", "cp1252"}, "utf-8": {"utf-8", "utf8"}, "utf8": {"utf-8", "utf8"}}
+        written = "ascii" if ascii_only and ce in ("utf-8", "utf8", "ascii", "latin-1", "latin1") else ce
+        ok = ce is not None and cd is not None and cd in superset.get(written, {written})
+        ctx.check(ok, dec[0], "the reader's codec (%s) decodes everything the writer emits (%s%s)" % (cd, ce, ", ASCII-only JSON" if ascii_only else ""),
+                  "the writer emits %s text%s but the reader decodes %s: metadata containing non-ASCII text is written and can never be read back (get_metadata answers {})" % (ce, "" if ascii_only else " with non-ASCII characters kept (ensure_ascii=False)", cd))
+    else:
+        ctx.check(not enc and not dec, (enc or dec or [w])[0], "text mode on both sides", "only one side of the metadata file encodes/decodes explicitly")
